@@ -32,6 +32,11 @@ func concOps() []concOp {
 		func(r *rand.Rand) string {
 			t := randType(r, 2)
 			v := randGoValue(r, t, 2)
+			if hasTiedKeys(v) {
+				// distinct map keys with equal key streams marshal in map iteration order (the domain edge of
+				// C08): the result is not a function of the value even when run alone
+				return digestOf("tied-keys")
+			}
 			ts, err := marshalTokens(v.Interface(), nil)
 			if err != nil {
 				return digestOf("merr", classOf(err))
